@@ -136,11 +136,36 @@ def resolve_type(name):
     return type_table()[name]
 
 
-def impl_dec(mode, tname, cc, enc, data, source="counting"):
-    """Run Binary.marshal on the real code; return canonical lines (events, then one R line)."""
+def make_source(kind, data):
+    if kind == "bytes":
+        return bytes(data)
+    if kind == "bytearray":
+        return bytearray(data)
+    if kind == "list":
+        return list(data)
+    if kind == "iterator":
+        return iter(bytes(data))
+    if kind == "generator":
+        return (b for b in bytes(data))
+    if kind == "tuple":
+        return tuple(data)
+    raise ValueError(kind)
+
+
+def impl_dec(mode, tname, cc, enc, data, source="counting", unmarshal=False):
+    """Run Binary.marshal on the real code; return canonical lines (events, then one R line).
+    source: "counting" (pull counts are real) or another iterable kind (pull counts printed as 0).
+    unmarshal: additionally re-encode the emitted events with Binary.unmarshal (lines U and S before R)."""
     tp = resolve_type(tname)
-    it = CountingIter(data)
-    kwargs = dict(tpm_type=tp, buffer=it, abort_on_error=(mode == "S"))
+    if source == "counting":
+        it = CountingIter(data)
+    else:
+        class _Zero:
+            count = 0
+        it = _Zero()
+        it_src = make_source(source, data)
+    kwargs = dict(tpm_type=tp, buffer=(it if source == "counting" else it_src), abort_on_error=(mode == "S"))
+    evs = []
     if cc is not None:
         kwargs["command_code"] = TPM_CC(cc)
     if enc:
@@ -151,6 +176,7 @@ def impl_dec(mode, tname, cc, enc, data, source="counting"):
     try:
         while True:
             ev = next(gen)
+            evs.append(ev)
             if pending is not None:
                 lines.append(pending)
                 pending = None
@@ -182,6 +208,26 @@ def impl_dec(mode, tname, cc, enc, data, source="counting"):
         lines.append(f"R raised {err_str(e)} rem={rem}")
     except Exception as e:  # noqa: internal error
         lines.append(f"R crash {type(e).__name__}")
+    if unmarshal:
+        try:
+            chunks = list(Binary.unmarshal(evs))
+            u = b"".join(chunks)
+            off = 0
+            verdict = "ok"
+            for k, (ev, ch) in enumerate(zip(evs, chunks)):
+                if isinstance(ev, MarshalEvent) and ev.value is not ...:
+                    w = type(ev.value)._int_size
+                    if len(ch) != w or bytes(data[off:off + w]) != ch:
+                        verdict = f"mismatch@{k}"
+                        break
+                    off += w
+                elif len(ch) != 0:
+                    verdict = f"nonempty@{k}"
+                    break
+            extra = [f"U {u.hex() or '-'}", f"S {verdict}"]
+        except Exception as e:  # noqa
+            extra = [f"U crash {type(e).__name__}", "S -"]
+        lines = lines[:-1] + extra + lines[-1:]
     return lines
 
 
